@@ -202,10 +202,16 @@ def monotone_frames_rule(F, G, rep):
     # the frame count both APIs report is the number of rows, not something derived from frame ids (ids repeat on rollbacks)
     for fn, want in (("<io::slippi::de::ParseState as game::Game>::len", "self.game.frames.len()"), ("<game::immutable::Game as game::Game>::len", "self.frames.id.len()")):
         b = F.body(fn)
-        got = tir.pretty(L.strip_try(b["tir"]["value"])) if b else None
+        got = None
+        if b:
+            v = L.strip_try(b["tir"]["value"])
+            got = tir.pretty(v)
+            if v.get("k") == "MethodCall" and v["method"] == "len" and not v.get("args"):
+                got = (tir.place(v["recv"]) or "?") + ".len()"      # `&x`, `x.as_ref()` etc. are the same place
         rep.ob("monotone.count", got in (want, "self.game.frames.id.len()", "self.frames.len()"), fn, "len", "%s must report the number of frame rows (%s), got %s" % (fn, want, got))
     lb = F.body("frame::mutable::Frame::len")
-    rep.ob("monotone.len", lb is not None and tir.pretty(L.strip_try(lb["tir"]["value"])) == "self.id.len()", "frame::mutable::Frame::len", "len", "the frame count must be the length of the id column")
+    lv = L.strip_try(lb["tir"]["value"]) if lb is not None else {}
+    rep.ob("monotone.len", lv.get("k") == "MethodCall" and lv["method"] == "len" and not lv.get("args") and tir.place(lv["recv"]) == "self.id", "frame::mutable::Frame::len", "len", "the frame count must be the length of the id column")
 
 
 def run(F, rep, tier):
